@@ -259,7 +259,7 @@ def case_opb_constraint(ctx, L, rseed, count):
         terms = []
         for i in range(L):
             var = r.randint(1, n) if r.random() < 0.3 else i + 1
-            c = r.choice([-4, -3, -2, -1, 1, 2, 3, 4])
+            c = r.choice([-4, -3, -2, -1, 0, 1, 2, 3, 4])
             terms.append((c, r.choice([1, -1]) * var))
         op = r.choice(["<=", ">=", "<", ">", "=="])
         deg = r.randint(-6, 4 * L + 2) if r.random() < 0.8 else r.randint(-30, 40)
@@ -300,7 +300,7 @@ def case_normalize(ctx, rseed, count):
     for _ in range(count):
         L = r.randint(0, 6)
         n = max(1, L)
-        terms = [(r.choice([-9, -5, -3, -2, -1, 1, 2, 3, 4, 7]),
+        terms = [(r.choice([-9, -5, -3, -2, -1, 0, 0, 1, 2, 3, 4, 7]),
                   r.choice([1, -1]) * r.randint(1, n)) for _ in range(L)]
         op = r.choice(["<=", ">=", "<", ">", "=="])
         deg = r.randint(-12, 25)
